@@ -33,6 +33,7 @@ pub struct Evaluator<'a> {
     functions: &'a FunctionMap,
     pc: Option<ProgramCounter>,
     pass_idx: Option<usize>,
+    hiding_stale_symbols: bool,
     usages: Arc<Mutex<Vec<SymbolUsage>>>,
 }
 
@@ -133,8 +134,15 @@ impl<'a> Evaluator<'a> {
             functions,
             pc,
             pass_idx: None,
+            hiding_stale_symbols: false,
             usages: Arc::new(Mutex::new(vec![])),
         }
+    }
+
+    /// Should what this pass has not defined yet have no value, even though an earlier pass gave it one?
+    pub fn hiding_stale_symbols(mut self, hiding_stale_symbols: bool) -> Self {
+        self.hiding_stale_symbols = hiding_stale_symbols;
+        self
     }
 
     /// The pass the evaluation takes place in (when it takes place during assembly)
@@ -367,7 +375,13 @@ impl<'a> Evaluator<'a> {
     ) -> Option<&SymbolData> {
         let tuple = self.get_symbol(self.current_scope_nx, &path.data);
         let symbol_index = tuple.as_ref().map(|(s, _)| *s);
-        let symbol_data = tuple.as_ref().map(|(_, s)| &s.data);
+        let symbol_data = tuple
+            .as_ref()
+            .filter(|(_, s)| {
+                !(self.hiding_stale_symbols
+                    && matches!(self.pass_idx, Some(pass_idx) if s.pass_idx < pass_idx))
+            })
+            .map(|(_, s)| &s.data);
 
         if track_usage {
             self.usages.lock().unwrap().push(SymbolUsage {
